@@ -3,7 +3,8 @@
 
 Only *data* is read here: the message-type numbers `_dispatch` compares against, the label / handler numbers
 the frame classifier of the server model mentions, the defaults of `ThreadPoolServer` (`nbThreads`,
-`requestBatchSize`) and which server classes exist.  Everything that is control flow (the accept loop, the
+`requestBatchSize`), which server classes exist, and one measured fact about the live pool code (see
+`poolDropSparesNewcomer`).  Everything that is control flow (the accept loop, the
 try/finally of `_authenticate_and_serve_client`, the pool's poller / worker catch-alls, `close()`) is modelled
 by hand in lean/RpycModel/Srv/Server.lean and tied to the code behaviourally by the C16 / C17 correspondence
 runs against the real servers, so that harmless rewrites of the code are not flagged.
@@ -19,6 +20,39 @@ SERVERS = ["ThreadedServer", "ThreadPoolServer", "ForkingServer", "OneShotServer
 def camel(name):
     parts = name.lower().split("_")
     return parts[0] + "".join(p.capitalize() for p in parts[1:])
+
+
+def _drop_spares_newcomer(server):
+    import rpyc
+
+    class Stand(object):
+        def __init__(self):
+            self.closed = False
+
+        def close(self):
+            self.closed = True
+
+    try:
+        srv = server.ThreadPoolServer(rpyc.VoidService, hostname="127.0.0.1", port=0, auto_register=False)
+    except OSError as ex:
+        raise Inexpressible("cannot instantiate ThreadPoolServer: %s" % ex)
+    try:
+        newcomer, leaving = Stand(), Stand()
+
+        def poll(*a, **k):
+            leaving.closed = True                 # serve() has closed the connection: its descriptor number is free
+            srv.fd_to_conn[7] = newcomer          # the accept thread stores a new client under the same number
+            raise EOFError("connection closed by peer")
+        leaving.poll = poll
+        srv.fd_to_conn[7] = leaving
+        srv._add_inactive_connection = lambda fd: None
+        try:
+            srv._serve_requests(7)
+        except Exception as ex:  # noqa
+            raise Inexpressible("ThreadPoolServer._serve_requests no longer handles EOFError from poll(): %r" % (ex,))
+        return srv.fd_to_conn.get(7) is newcomer and not newcomer.closed
+    finally:
+        srv.listener.close()
 
 
 def gen_server():
@@ -55,6 +89,12 @@ def gen_server():
     L += ["", "/-- `ThreadPoolServer` defaults: `nbThreads`, `requestBatchSize` -/",
           "def poolDefaultThreads : Nat := %d" % nb,
           "def poolDefaultBatch : Nat := %d" % batch]
+    L += ["", "/-- does the pool's end-of-stream path (`_serve_requests` -> `_drop_connection`) leave alone a NEW connection that",
+          "was stored under the same descriptor number while the departing one was being closed?  Measured on the live",
+          "functions (no sockets): a stand-in connection whose `poll()` stores a newcomer under its own number and then",
+          "raises EOFError is served through the real `_serve_requests`; true iff the newcomer is still in `fd_to_conn`",
+          "and not closed afterwards -/",
+          "def poolDropSparesNewcomer : Bool := %s" % ("true" if _drop_spares_newcomer(server) else "false")]
     L += ["", "end Rpyc.Gen.Srv", ""]
     return "\n".join(L)
 
